@@ -492,10 +492,10 @@ func verifC14DriveWriter(w io.Writer, inner *verifC14RespWriter, ops []vsx, mete
 		var n int
 		var err error
 		meter.around(len(data), func() { n, err = w.Write(data) })
-		if inner.writes != before+1 || !bytes.Equal(inner.got, written) || !bytes.Equal(data, written) {
+		if inner.writes != before+1 || !bytes.Equal(inner.got, written) {
 			return nil, "inner-write-did-not-get-exactly-the-callers-bytes"
 		}
-		if !arena.intact() {
+		if !arena.intact() || !bytes.Equal(data, written) {
 			return nil, verifC14MemErr
 		}
 		arena.consumed(len(data))
